@@ -66,6 +66,11 @@ type Sched struct {
 	nHarness int
 	Timeouts int           // number of times virtual time had to advance
 	Extra    time.Duration // after all harness threads are done: let this much virtual time pass (timers)
+	// Free: no control at all - harness threads are plain goroutines, Point is a no-op and
+	// the lock shim uses its scheduler-less fallback. Used by the separate free-running
+	// `-race` pass (a cooperative scheduler's hand-offs are happens-before edges that blind
+	// the race detector).
+	Free bool
 }
 
 var active atomic.Pointer[Sched]
@@ -171,8 +176,29 @@ func (s *Sched) Aborting() bool {
 	return s.abort
 }
 
+// NewFree creates a scheduler that controls nothing (see Sched.Free).
+func NewFree() *Sched {
+	s := New(nil, nil)
+	s.Free = true
+	return s
+}
+
 // Go starts a harness thread. Its identity is fixed here, in program order.
 func (s *Sched) Go(name string, fn func()) {
+	if s.Free {
+		s.mu.Lock()
+		s.nHarness++
+		s.mu.Unlock()
+		go func() {
+			defer func() {
+				s.mu.Lock()
+				s.nHarness--
+				s.mu.Unlock()
+			}()
+			fn()
+		}()
+		return
+	}
 	s.mu.Lock()
 	s.nHarness++
 	t := s.newThread(name, true)
@@ -216,6 +242,25 @@ func (s *Sched) harnessLeft() int {
 // harness threads were started with Go. It returns when all harness threads have
 // finished and nothing is parked, or with Deadlock / Diverged set.
 func (s *Sched) Run() {
+	if s.Free {
+		var waited time.Duration
+		for {
+			synctest.Wait()
+			if s.harnessLeft() == 0 {
+				if s.Extra > 0 {
+					time.Sleep(s.Extra)
+					synctest.Wait()
+				}
+				return
+			}
+			if waited >= s.Horizon {
+				s.Deadlock = fmt.Sprintf("%d harness thread(s) still blocked after %s of virtual time (free-running)", s.harnessLeft(), s.Horizon)
+				return
+			}
+			time.Sleep(s.Step)
+			waited += s.Step
+		}
+	}
 	active.Store(s)
 	defer active.Store(nil)
 	var waited time.Duration
